@@ -35,13 +35,16 @@ EXTRA = {
     'around the module\'s size constants, argument shapes, reused producer '
     'buffers.',
     'C07': 'Also: queries in mid-stream, reused producer buffers, '
-    'tracing=True, descriptors with CRLF / odd extent lines.',
+    'tracing=True (half of them with DEBUG logging switched on and every '
+    'record rendered), descriptors with CRLF / odd extent lines.',
     'C09': 'Also: symlink / dangling-link / loop paths, a falsy logger, one '
     'context object serving two handlers, a filter host that is a copy of '
-    'a prototype.',
+    'a prototype, hosts that compare and hash equal although their '
+    'predicates differ.',
     'C12': 'Also: overrides in named zones (advances only where wall-clock '
     'and exact arithmetic agree), utcnow(with_timezone=True), margins '
-    'beyond the representable range.',
+    'beyond the representable range, an override that shows one wall-clock '
+    'reading with fold 0 and then fold 1 (equal, same hash, an hour apart).',
     'C13': 'Also: watches that travel (copy / deepcopy / pickle replacing '
     'the original), two watches at once, a clock read that raises (counted, '
     'not judged), '
